@@ -185,6 +185,41 @@ def store(mem, addr, size, val):
     return mem
 
 
+def rsel(mem, addr, _memo=None):
+    """select(mem, addr) for a constant address, resolved through ite and
+    store structure (z3's simplifier does not push selects through ites of
+    arrays)"""
+    memo = {} if _memo is None else _memo
+    key = mem.get_id()
+    if key in memo:
+        return memo[key][1]
+    k = mem.decl().kind() if z3.is_app(mem) else None
+    if k == z3.Z3_OP_ITE:
+        r = If(mem.arg(0), rsel(mem.arg(1), addr, memo),
+               rsel(mem.arg(2), addr, memo))
+    elif k == z3.Z3_OP_STORE:
+        j = const_of(mem.arg(1))
+        if j is None:
+            r = Select(mem, bv(addr))
+        elif j == addr:
+            r = mem.arg(2)
+        else:
+            r = rsel(mem.arg(0), addr, memo)
+    else:
+        r = Select(mem, bv(addr))
+    memo[key] = (mem, r)
+    return r
+
+
+def rload(mem, addr, size):
+    """little-endian load at a constant address via rsel"""
+    bs = [rsel(mem, addr + i) for i in range(size)]
+    v = bs[0]
+    for b in bs[1:]:
+        v = Concat(b, v)
+    return v
+
+
 def const_of(t):
     t = simplify(t)
     if z3.is_bv_value(t):
